@@ -2,6 +2,7 @@ import QM.Refine
 import QM.Proc
 import QM.Conform
 import QM.ProcLocal
+import QM.ConvPod
 /-! # C08, C09, C10 — the conversion loop refines an order-free, declarative name resolution
 
 `Refine.run` is the loop of `process` in the abstract: a name table pre-filled before the loop
@@ -145,5 +146,20 @@ example : Loadable [⟨s "/q/a.volume", []⟩, ⟨s "/q/p.pod", []⟩, ⟨s "/q/
   constructor
   · intro q hq; simp at hq; rcases hq with rfl | rfl | rfl <;> decide
   · decide
+
+
+/-! ### C09, the pod's side, in the converter model
+
+`C08_process_concrete` says the pod converter receives exactly the service files of the containers that joined the pod
+(`Refine.decl`: the complete list of linkers, in processing order).  `C09_pod_wants_members` says what it does with
+them: the `Wants=` and the `Before=` entries of the generated pod service are the ones the unit already had (default
+dependencies, the user's own) followed by exactly one per member, in that order — no more, no fewer. -/
+
+theorem C09_pod_wants_members (E : Env) (path : Str) (u svc : SUnit) (cs : List Str) (h : fromPod E path u cs = .ok svc) :
+    keyEntries svc (s "Unit") (s "Wants")
+      = keyEntries (preService path u (s "Pod") (s "X-Pod")) (s "Unit") (s "Wants") ++ cs.map (fun c => (s "Wants", P.quoteValue c)) ∧
+    keyEntries svc (s "Unit") (s "Before")
+      = keyEntries (preService path u (s "Pod") (s "X-Pod")) (s "Unit") (s "Before") ++ cs.map (fun c => (s "Before", P.quoteValue c)) :=
+  ⟨pod_members E path u svc cs h "Wants" (Or.inl rfl), pod_members E path u svc cs h "Before" (Or.inr rfl)⟩
 
 end Cv
